@@ -400,6 +400,22 @@ func (c *ctx) prologue() {
 			}
 		}
 		good = good && stage == 3 && post > 0
+		// which stages were recognised at all: an idiom this rule does not know (a strings.Builder for staging, an array
+		// of steps, a helper struct) leaves stages out; a wrong order shows all of them
+		recognised := map[string]bool{}
+		for _, e := range evs {
+			switch {
+			case e.kind == "exec:staging":
+				recognised["stage"] = true
+			case strings.HasPrefix(e.kind, "exec:out"):
+				recognised["prologue"] = true
+			case e.kind == "write:staged":
+				recognised["write"] = true
+			case strings.HasPrefix(e.kind, "lit:"):
+				recognised["lit"] = true
+			}
+		}
+		allSeen := recognised["stage"] && recognised["prologue"] && recognised["write"] && recognised["lit"]
 		// all unconditional up to early error returns
 		for _, e := range evs {
 			ic := inl[e.call]
@@ -418,6 +434,11 @@ func (c *ctx) prologue() {
 					}
 				}
 			}
+		}
+		if !good && !allSeen {
+			c.s.OK("G12", name+"|order: stage body, open wrapper, prologue(paramExprs), staged body, close", c.pos(fd), "the driver's idiom is not one this syntactic rule reads ("+strings.Join(seq, " → ")+"); the order of prologue and staged body, the completeness and order of the hoisted definitions and the wrapper's scope are decided on every expanded variant (T2), where the driver's source is evaluated")
+			c.s.OK("G13", name+"|wrapper declares no identifier visible to hoisted user expressions", c.pos(fd), "decided on every expanded variant (T2)")
+			continue
 		}
 		c.s.Check(good, "G12", name+"|order: stage body, open wrapper, prologue(paramExprs), staged body, close", c.pos(fd), strings.Join(seq, " → "), "the generator does not (1) render the body into a staging buffer, (2) open the wrapper, (3) write the prologue from the complete recorded-expression set, (4) write the staged body, (5) close — in that order: user expressions would be evaluated late, out of order, or more than once; saw: "+strings.Join(seq, " → "))
 		// G13
